@@ -19,6 +19,7 @@ import GocoinV.Proofs.C08_EcmultFull
 import GocoinV.Proofs.C08_Lift
 import GocoinV.Proofs.C08_Examples
 import GocoinV.Proofs.C08_Api
+import GocoinV.Proofs.C08_Hist
 
 namespace GocoinV.Props.C08
 open GocoinV.C08 GocoinV.Gen.Field5x52 GocoinV.Gen GocoinV.Proofs.C03
@@ -554,6 +555,90 @@ example : multiply gBytes 0 false = .refused ∧ multiply gBytes CurveConsts.ord
     multiply gBytes (3 * CurveConsts.order) true = .refused ∧ multiply gBytes 1 false ≠ .refused :=
   ⟨(multiply_at_G _ _).2.2 (by decide), (multiply_at_G _ _).2.2 (by decide), (multiply_at_G _ _).2.2 (by decide),
    fun h => absurd ((multiply_at_G _ _).2.1 h) (by decide)⟩
+
+/-! ### operation SEQUENCES on objects: what a call leaves in its operands, registers used again
+
+  The Go methods work on objects the caller keeps. All group operations only READ their operands — except `XY.SetXYZ`,
+  which rescales its Jacobian argument in place. `XYZ.afterSetXYZ` (Model.GroupHist) is that in-place effect statement
+  by statement; `run` executes a history of calls on a file of Jacobian / affine registers (result register and operand
+  may coincide), `refRun` the same history on points of the reference group law. Tied by the harness stream `hist`
+  (go/cmd/c08/history.go: the real calls on the SAME objects from first to last, every register judged after every call). -/
+
+/-- What `XY.SetXYZ(a)` leaves in its ARGUMENT, for EVERY operand within the contract: an admissible triple (it is exactly
+    `SetXY` of the affine result: coordinates of magnitude 1, Z = 1) with the same Infinity flag that stands for the SAME
+    point. The caller's object can be converted again and computed with as if nothing had happened — this is the
+    statement a SetXYZ that inverts a.Z but leaves a.X, a.Y unscaled violates. -/
+theorem setXYZ_keeps_operand (a : XYZ) (ha : a.ok) :
+    XYZ.afterSetXYZ a = XYZ.ofXY (XY.ofXYZ a) ∧ (XYZ.afterSetXYZ a).ok ∧ (XYZ.afterSetXYZ a).inf = a.inf ∧
+    (XYZ.afterSetXYZ a).toPoint = a.toPoint :=
+  ⟨afterSetXYZ_eq a, afterSetXYZ_ok a ha⟩
+
+example : (XYZ.afterSetXYZ (XYZ.double gJ)).toPoint = Secp.mul 2 Secp.G := by
+  have h := double_ok gJ gJ_Rp.1
+  rw [(setXYZ_keeps_operand _ h.1).2.2.2, h.2, gJ_toPoint]; decide +kernel
+
+/-- … so publishing the same object twice gives the same point twice -/
+theorem setXYZ_twice (a : XYZ) (ha : a.ok) :
+    (XY.ofXYZ (XYZ.afterSetXYZ a)).toPoint = (XY.ofXYZ a).toPoint ∧ (XY.ofXYZ (XYZ.afterSetXYZ a)).inf = (XY.ofXYZ a).inf := by
+  obtain ⟨_, h2, h3, h4⟩ := setXYZ_keeps_operand a ha
+  obtain ⟨_, i1, p1⟩ := setXYZ_correct a ha
+  obtain ⟨_, i2, p2⟩ := setXYZ_correct _ h2
+  exact ⟨by rw [p2, h4, p1], by rw [i2, h3, i1]⟩
+
+example : (XYZ.double gJ).ok := (double_ok gJ gJ_Rp.1).1
+
+/-- ALL operation sequences respecting the contract: start from registers within the input contract (X, Y, Z ≤ 8 /
+    X, Y ≤ 8, Z ≠ 0 for finite points), run ANY history of Double / Add / AddXY / Neg / XY.Neg / SetXYZ / SetXY /
+    ECmultGen calls whose result and operand registers are chosen freely (results over operands, objects converted and
+    used again, …). Then every call finds its operands within the contract again, and afterwards EVERY register — the
+    results, the operands, the bystanders — stands for the point the reference group law gives for it. (mul_lambda and
+    ECmult are run by the same machine and by the harness; their meaning as multiples is `ecmult_sum_correct` /
+    `ecmult_correct_partial`, under the hypotheses stated there.) -/
+theorem history_correct (ops : List HOp) (hl : ∀ o ∈ ops, o.law = true) (r r' : Regs) (hr : r.ok)
+    (h : run ops r = some r') : r'.ok ∧ refRun ops r.points = some r'.points :=
+  run_ok ops hl r r' hr h
+
+example : ∃ r', run [.dbl 0 0, .setxyz 0 0, .addxy 0 0 0, .setxyz 0 0] ⟨[gJ], [preGXY 0]⟩ = some r' ∧
+    refRun [.dbl 0 0, .setxyz 0 0, .addxy 0 0 0, .setxyz 0 0] (Regs.points ⟨[gJ], [preGXY 0]⟩) = some r'.points := by
+  have hr : Regs.ok ⟨[gJ], [preGXY 0]⟩ :=
+    ⟨fun a ha => by rw [List.mem_singleton.1 ha]; exact gJ_Rp.1, fun b hb => by rw [List.mem_singleton.1 hb]; exact preGXY0_RpA.1⟩
+  refine ⟨_, rfl, (history_correct _ (by decide) _ _ hr rfl).2⟩
+
+/-! ### several callers at once: no writable package-level state
+
+  All the definitions above are functions of the call's arguments. The Go functions are, as long as the package keeps
+  no package-level variable that is written after initialisation. That structural fact is REGENERATED from the source
+  on every run (go/cmd/gen_c08/shared.go, go/types: every function of lib/secp256k1 except init / init_contants; writes
+  through aliases, receivers and callees' parameters followed). The harness stream `conc` looks for the failing input. -/
+
+/-- No function of lib/secp256k1 writes a package-level variable (TheCurve, the precomputed tables, BigInt1, … are only
+    read after init): a scratch number, cache or pooled buffer hoisted to package level breaks this theorem. -/
+theorem package_keeps_no_writable_state : Gen.C08Shared.globalsWritten = [] := by decide
+
+/-- `Field.InvVar` — the one place where the field code goes through math/big, under every Jacobian → affine
+    conversion — at step level (load n := v; n := n⁻¹ mod p; store), for ANY number of callers under ANY interleaving
+    of their steps, with the variant the source has (`Gen.C08Shared.invScratchShared`: is a value written by InvVar
+    package-level?): once all callers have returned, each holds exactly `invVar` of its OWN argument. -/
+theorem concurrent_inversions_schedule_independent (as : List Fe) (sched : List Nat) :
+    InvSched.results as sched = as.map invVar := by
+  have hs : Gen.C08Shared.invScratchShared = false := by decide
+  unfold InvSched.results
+  simp only [hs]
+  have h := InvSched.finished_outs (as.map InvSched.argVal) sched
+  rw [List.length_map] at h
+  have e : ∀ l : List InvSched.Th, l.map (fun t => Fe.ofNat t.out) = (l.map (·.out)).map Fe.ofNat := by
+    intro l; rw [List.map_map]; rfl
+  rw [e, h, List.map_map, List.map_map]
+  apply List.map_congr_left
+  intro a _
+  rfl
+
+/-- … and the hypothesis is needed: with ONE number shared by all callers (the hoisted variant) the interleaving
+    load₀ load₁ invert₀ store₀ hands caller 0 the inverse of caller 1's value. -/
+theorem shared_scratch_not_schedule_independent :
+    ((InvSched.run true (InvSched.start [2, 3]) [0, 1, 0, 0]).ths.map (·.out)).head? = some (Secp.invMod 3 P) ∧
+    Secp.invMod 3 P ≠ Secp.invMod 2 P := by
+  decide +kernel
 
 /-
   OPEN (covered by the differential run only — go/cmd/c08 compares the hand group model limb-for-limb with the
